@@ -144,6 +144,7 @@ type Engine struct {
 	ubCache map[int]uint64
 	strIntern map[string]int
 	typeIDs map[string]int
+	tables  map[string][]*smt.Term // tabulated one-byte functions
 	Params map[string]int
 	uniq    map[string]int
 	NoSlice bool
